@@ -127,11 +127,64 @@ pub fn generate(rng: &mut Rng, tier: Tier, emit: &mut dyn FnMut(String)) {
         for _ in 0..(if thorough { 200 } else { 20 }) {
             tys.push(random_ty(rng, 2));
         }
+        if e.cd == CD::Dyn {
+            // the dynamic carrier passes type_check for every column type: a large share of checked pairs
+            tys.extend(d1.iter().cloned());
+            tys.extend(depth2_slice(0, if thorough { 2 } else { 7 }));
+        }
+        // every column type of nesting <= 2 the documentation pairs with this carrier (pairs that PASS type_check:
+        // these are the ones the no-panic theorems speak about), each with three cell shapes
+        for t in d1.iter().chain(depth2_slice(0, if thorough { 1 } else { 5 }).iter()) {
+            if compat(&e.cd, t, Side::De, true) == Some(true) {
+                tys.push(t.clone());
+            }
+        }
         let mut seen = std::collections::HashSet::new();
         for t in tys {
             if seen.insert(ty_str(&t)) {
-                emit(format!("deser {} | {} | {}", e.label, cd_str(&e.cd), ty_str(&t)));
+                let checked = compat(&e.cd, &t, Side::De, true) == Some(true) || e.cd == CD::Dyn;
+                for variant in 0..(if checked { 3 } else { 1 }) {
+                    emit(format!("deser {} {} | {} | {}", e.label, variant, cd_str(&e.cd), ty_str(&t)));
+                }
             }
+        }
+    }
+    // the dynamic carrier through its own registration: every type passes its type_check
+    // (row level) deserialize without type_check: every row-level case once more as `deserrow`
+    for (i, (label, cd)) in ROW_LABELS.iter().enumerate() {
+        let show = |ts: &[Ty]| format!("deserrow {} | {} | {}{}", label, cd, ts.len(), ts.iter().map(|t| format!(" {}", ty_str(t))).collect::<String>());
+        let nat: Vec<Ty> = match i {
+            3 => vec![Ty::Native(NativeType::Int)],
+            4 => vec![Ty::Native(NativeType::Int), Ty::Native(NativeType::Text)],
+            5 => vec![Ty::Native(NativeType::Int), Ty::List(Box::new(Ty::Native(NativeType::Text))), Ty::Native(NativeType::Counter)],
+            6 => vec![
+                Ty::Native(NativeType::BigInt),
+                Ty::Map(Box::new(Ty::Native(NativeType::Int)), Box::new(Ty::Native(NativeType::Text))),
+                Ty::Tuple(vec![Ty::Native(NativeType::Int), Ty::Native(NativeType::Float)]),
+                Ty::Set(Box::new(Ty::Native(NativeType::Int))),
+            ],
+            0 => vec![Ty::Native(NativeType::Int)],
+            _ => vec![],
+        };
+        emit(show(&nat));
+        let mut more = nat.clone();
+        more.push(Ty::Native(NativeType::Int));
+        emit(show(&more));
+        more.push(Ty::Native(NativeType::Text));
+        emit(show(&more));
+        for k in 0..nat.len() {
+            emit(show(&nat[..k]));
+            emit(show(&nat[k..]));
+            for m in mutations(&nat[k]) {
+                let mut c = nat.clone();
+                c[k] = m;
+                emit(show(&c));
+            }
+        }
+        for _ in 0..(if thorough { 200 } else { 20 }) {
+            let n = rng.below(6) as usize;
+            let ts: Vec<Ty> = (0..n).map(|_| if rng.chance(2, 3) && !nat.is_empty() { rng.pick(&nat).clone() } else { random_ty(rng, 1) }).collect();
+            emit(show(&ts));
         }
     }
 
@@ -317,6 +370,59 @@ pub fn generate(rng: &mut Rng, tier: Tier, emit: &mut dyn FnMut(String)) {
     // ---- the pager's typed stream over pages whose metadata differ ----
     gen_pager(rng, thorough, emit);
 
+    // ---- the legacy empty value against every type that can / cannot hold it, at the top and one level down ----
+    {
+        let int = Ty::Native(NativeType::Int);
+        let non_emptiable: Vec<Ty> = vec![
+            Ty::Native(NativeType::Counter),
+            Ty::Native(NativeType::Duration),
+            Ty::List(Box::new(int.clone())),
+            Ty::Set(Box::new(int.clone())),
+            Ty::Map(Box::new(int.clone()), Box::new(int.clone())),
+            udt_ty(&[("a", int.clone())]),
+        ];
+        let emptiable: Vec<Ty> = vec![int.clone(), Ty::Native(NativeType::Text), Ty::Native(NativeType::Uuid), Ty::Tuple(vec![int.clone()]), Ty::Vector(Box::new(int.clone()), 2)];
+        let all_e: Vec<Ty> = non_emptiable.iter().chain(emptiable.iter()).cloned().collect();
+        let by = |l: &str| entry(l).unwrap();
+        let mut binds: Vec<(&Entry, u32, Ty)> = Vec::new();
+        for e in &all_e {
+            // at the top: CqlValue::Empty and MaybeEmpty<T>::Empty (+ behind Option)
+            binds.push((by("CqlValue:empty"), 0, e.clone()));
+            for l in ["MaybeEmpty<i32>", "MaybeEmpty<Uuid>", "Option<MaybeEmpty<i64>>"] {
+                binds.push((by(l), 1, e.clone()));
+                binds.push((by(l), 0, e.clone()));
+            }
+            // one level down
+            for v in 0..4 {
+                binds.push((by("CqlValue:list-of-empty"), v, Ty::List(Box::new(e.clone()))));
+                binds.push((by("CqlValue:list-of-empty"), v, Ty::Set(Box::new(e.clone()))));
+                binds.push((by("CqlValue:list-of-empty"), v, Ty::Vector(Box::new(e.clone()), 2)));
+                binds.push((by("CqlValue:udt-of-empty"), v, udt_ty(&[("a", e.clone()), ("b", int.clone())])));
+                binds.push((by("CqlValue:udt-of-empty"), v, udt_ty(&[("a", int.clone()), ("b", e.clone())])));
+                for e2 in [&int, e] {
+                    binds.push((by("CqlValue:map-of-empty"), v, Ty::Map(Box::new(e.clone()), Box::new(e2.clone()))));
+                    binds.push((by("CqlValue:map-of-empty"), v, Ty::Map(Box::new(e2.clone()), Box::new(e.clone()))));
+                    binds.push((by("CqlValue:tuple-of-empty"), v, Ty::Tuple(vec![e.clone(), e2.clone()])));
+                    binds.push((by("CqlValue:tuple-of-empty"), v, Ty::Tuple(vec![e2.clone(), e.clone()])));
+                }
+            }
+            binds.push((by("Vec<MaybeEmpty<i32>>"), 2, Ty::List(Box::new(e.clone()))));
+            binds.push((by("Vec<MaybeEmpty<i32>>"), 2, Ty::Vector(Box::new(e.clone()), 3)));
+        }
+        let mut seen = std::collections::HashSet::new();
+        for (i, (e, v, t)) in binds.iter().enumerate() {
+            let c = ser_case(e, *v, t);
+            if !seen.insert(c.clone()) {
+                continue;
+            }
+            emit(c);
+            // the same bind after values already bound (rollback: the request must stay intact when it is refused)
+            if i % 3 == 0 || thorough {
+                emit(format!("row {} ; {} ; {} ; {}", add_op(by("Vec<String>"), 0, &Ty::List(Box::new(Ty::Native(NativeType::Text)))), add_op(by("i32"), 0, &int), add_op(e, *v, t), add_op(by("i64"), 0, &Ty::Native(NativeType::BigInt))));
+            }
+        }
+    }
+
     // ---- row-level binding and new_from_frame ----
     gen_bindrow(rng, thorough, emit);
 
@@ -411,6 +517,12 @@ fn gen_pager(rng: &mut Rng, thorough: bool, emit: &mut dyn FnMut(String)) {
                 emit(format!("{} | {} | {} | {}", head_all, page(2, false, &nat), page(3, ext, v), page(2, ext, &nat)));
                 emit(format!("{} | {} | {} | {} | {}", head_all, page(1, false, &nat), page(2, false, v), page(0, false, &nat), page(2, false, v)));
                 emit(format!("{} | {} | {} | {}", head_all, page(0, false, &nat), page(4, false, v), page(1, false, &nat)));
+                // truncated pages: the raw row iterator errs (also on the FIRST row of a fresh page: `cut 0`), before
+                // and after a change of metadata, followed by intact pages
+                emit(format!("{} | {} | {} cut 0 | {}", head_all, page(2, false, &nat), page(3, ext, v), page(2, ext, &nat)));
+                emit(format!("{} | {} | {} cut 1 | {} cut 0 | {}", head_all, page(2, false, &nat), page(3, false, v), page(2, false, v), page(1, false, &nat)));
+                emit(format!("{} | {} cut 1 | {} | {}", head_all, page(3, false, &nat), page(2, false, v), page(1, false, &nat)));
+                emit(format!("{} | {} | {} cut 0 | {}", head, page(2, false, &nat), page(2, false, &nat), page(2, false, v)));
                 if nometa_ok {
                     emit(format!("{} | 2 nometa | {} | 1 nometa", head, page(1, ext, v)));
                     emit(format!("{} | 1 nometa | 0 nometa | {}", head, page(2, false, v)));
@@ -500,6 +612,52 @@ fn gen_bindrow(rng: &mut Rng, thorough: bool, emit: &mut dyn FnMut(String)) {
             // two markers without a value: the first one (in marker order) is reported
             let only_last = format!("c{} {}", n - 1, val(picks[n - 1].0, picks[n - 1].1));
             emit(format!("bindrow map | {} | {}", cols_str(&nat), only_last));
+        }
+    }
+    // batches: every statement has its OWN bind markers; value lists that match, that are swapped between
+    // neighbouring statements (the lists then match the neighbour's markers), that misfit in one statement, one
+    // list too many / too few
+    for _ in 0..(if thorough { 300 } else { 40 }) {
+        let n = 1 + rng.below(3) as usize;
+        let mut stmts: Vec<Vec<(String, Ty)>> = Vec::new();
+        let mut rows: Vec<Vec<(u8, u32)>> = Vec::new();
+        for s in 0..n {
+            let m = rng.below(4) as usize;
+            let picks: Vec<(u8, u32)> = (0..m).map(|_| (*rng.pick(&kinds), *rng.pick(&[0u32, 0, 0, 2, 3]))).collect();
+            stmts.push(picks.iter().enumerate().map(|(i, (k, _))| (format!("s{}c{}", s, i), dyn_value(*k, 0).1)).collect());
+            rows.push(picks);
+        }
+        let show = |stmts: &[Vec<(String, Ty)>], rows: &[Vec<(u8, u32)>], carrier: &str| {
+            let ss = if stmts.is_empty() { ".".to_owned() } else { stmts.iter().map(|c| cols_str(c)).collect::<Vec<_>>().join(" || ") };
+            let rs = if rows.is_empty() { ".".to_owned() } else { rows.iter().map(|r| join(r.iter().map(|(k, v)| val(*k, *v)).collect())).collect::<Vec<_>>().join(" || ") };
+            format!("batch {} | {} | {}", carrier, ss, rs)
+        };
+        let carrier = *rng.pick(&["vec", "iter", "tuple"]);
+        emit(show(&stmts, &rows, carrier));
+        if n >= 2 {
+            let mut sw = rows.clone();
+            sw.swap(0, 1);
+            emit(show(&stmts, &sw, carrier));
+            let mut rot = rows.clone();
+            rot.rotate_left(1);
+            emit(show(&stmts, &rot, carrier));
+            // statement k's list equal to statement k-1's list (matches the NEIGHBOUR's markers only)
+            let mut dup = rows.clone();
+            dup[1] = rows[0].clone();
+            emit(show(&stmts, &dup, carrier));
+        }
+        emit(show(&stmts, &rows[..n - 1], "vec"));
+        let mut more = rows.clone();
+        more.push(vec![(0, 0)]);
+        emit(show(&stmts, &more, "vec"));
+        let i = rng.below(n as u64) as usize;
+        if !stmts[i].is_empty() {
+            let j = rng.below(stmts[i].len() as u64) as usize;
+            for m in mutations(&stmts[i][j].1).into_iter().take(3) {
+                let mut c = stmts.clone();
+                c[i][j].1 = m;
+                emit(show(&c, &rows, carrier));
+            }
         }
     }
     // the tuple (i32, String, Vec<i32>)
